@@ -294,12 +294,18 @@ def shrink_failure(mod, f):
     return cur
 
 
+def _clip(x, limit=2500):
+    """a sample is written out in full unless its JSON text is very long (then: its first part, as text)"""
+    t = json.dumps(x, sort_keys=True, default=str)
+    return x if len(t) <= limit else t[:limit] + f" ... [{len(t)} characters in all]"
+
+
 def write_evidence(mod, pid, tier, seed, ev, cases, obs, kinds, errkinds, nontrivial, compared,
                    ndis, violations, known_seen, wall, searched, broken):
     samples = []
     step = max(1, len(cases) // 4)
     for i in range(0, len(cases), step):
-        samples.append({"case": cases[i], "observation": obs[i]})
+        samples.append({"case": _clip(cases[i]), "observation": _clip(obs[i])})
         if len(samples) >= 4:
             break
     cov = {
